@@ -60,6 +60,29 @@ def issue(srv, start, feeds):
     return out
 
 
+def nested_issue(srv, start, rnd):
+    """-> (inner id, outer id, counter afterwards): the inner issue runs from inside the outer one's call of the random source"""
+    import engineio.base_server as bs
+    srv.sequence_number = start
+    inner = []
+
+    class Re(Stub):
+        def token_bytes(self, n=None):
+            if not inner:
+                inner.append(None)
+                inner[0] = srv.generate_id()
+            return Stub.token_bytes(self, n)
+    old = bs.secrets
+    bs.secrets = Re(lambda: rnd)
+    try:
+        outer = srv.generate_id()
+    except Exception as e:
+        outer = 'raised ' + type(e).__name__
+    finally:
+        bs.secrets = old
+    return inner[0], outer, srv.sequence_number
+
+
 def gen_windows(ctx):
     rng = ctx.rng
     starts = [0, 1, 255, 256, 65535, 65536, 0xffffff - 3, 0xffffff - 1, 0xffffff] + [2 ** k - 1 for k in range(1, 25)]
@@ -114,6 +137,16 @@ def run(ctx):
             if a[2] == b[2]:
                 res.violations.append(dict(what='two ids within a window of consecutive issues are equal',
                                            case=dict(server=name, start=c0, other=b[1], rnd=rnd.hex(), ids=[a[2], b[2]]), facts=dict(clause='unique')))
+        # an issue that begins while another one is consulting the random source (the one point inside generate_id at which a second
+        # connection can interleave): the two are consecutive issues and must differ, and the counter must have advanced by two
+        for _ in range(12):
+            c0 = ctx.rng.choice([0, 1, (1 << 24) - 2, (1 << 24) - 1, ctx.rng.randrange(1 << 24)])
+            rnd = ctx.rng.randbytes(12)
+            a, b, after = nested_issue(srv, c0, rnd)
+            res.count(dict(server=name, nested=c0, rnd=rnd.hex()), True, 'nested')
+            if a == b or after != (c0 + 2) % (1 << 24):
+                res.violations.append(dict(what='two ids within a window of consecutive issues are equal (the second issue began while the first was reading the random source)',
+                                           case=dict(server=name, start=c0, rnd=rnd.hex(), ids=[a, b], counter_after=after, nested=True), facts=dict(clause='unique', nested=True)))
         for s, feeds, mode in gen_windows(ctx):
             recs = issue(srv, s, feeds)
             oracle(res, name, s, recs, mode)
